@@ -79,8 +79,12 @@ def prepare(root, rng, prior, case):
         if d:
             sub = d[0]
             fl = [f for f in listed if os.path.dirname(f) == sub]
+            def tag(f):
+                if case['types']:
+                    return {'metadata.xml': 'MISC', 'p-1.ebuild': 'EBUILD'}.get(os.path.basename(f), 'DATA')
+                return 'DATA'
             C.write_manifest(os.path.join(root, sub, 'Manifest'),
-                             [C.entry_line('DATA', os.path.basename(f), case['files'][f], case['hashes'] or ['SHA1']) for f in fl])
+                             [C.entry_line(tag(f), os.path.basename(f), case['files'][f], case['hashes'] or ['SHA1']) for f in fl])
     elif prior == 'two-in-dir':
         # the layout the fast generator scripts write: Manifest referencing Manifest.files in the same directory
         keep = [l for l in lines if l.split()[0] in ('IGNORE', 'DIST', 'TIMESTAMP')]
